@@ -204,6 +204,12 @@ func (e *Exec) eqValue(x, y Value) *Term {
 	case *StrV:
 		b := y.(*StrV)
 		if a.Opaque || b.Opaque {
+			if a.Opaque && a.Empty != nil && !b.Opaque && len(b.B) == 0 {
+				return a.Empty
+			}
+			if b.Opaque && b.Empty != nil && !a.Opaque && len(a.B) == 0 {
+				return b.Empty
+			}
 			panic(unsupported("comparison of formatted (opaque) strings"))
 		}
 		if len(a.B) != len(b.B) {
@@ -368,24 +374,42 @@ func (e *Exec) mapLookup(m *MapObj, k Value, vt types.Type) (Value, *Term) {
 	if kt, ok := k.(*Term); ok {
 		k = e.subst(kt)
 	}
-	// fast path for big tables with a symbolic scalar key
-	if kt, ok := k.(*Term); ok && !kt.IsConst() && len(m.Entries) > 6 && allConcreteKeys(m) {
-		found := tb.F
+	// big read-only tables (option names etc.) with a symbolic key: no forking; scalar values become
+	// an ite chain, string values an opaque string, with an exact "found" term
+	if len(m.Entries) > 6 && m.Frozen {
 		z := e.zero(vt)
-		if zt, scalar := z.(*Term); scalar {
-			r := zt
-			for _, en := range m.Entries {
-				c := tb.Eq(kt, en.K.(*Term))
-				found = tb.Or(found, c)
-				r = tb.Ite(c, en.V.(*Term), r)
+		_, scalar := z.(*Term)
+		_, isStr := z.(*StrV)
+		if scalar || isStr {
+			conds := make([]*Term, len(m.Entries))
+			symbolic := false
+			for i, en := range m.Entries {
+				conds[i] = e.keyEq(en.K, k)
+				if !conds[i].IsConst() {
+					symbolic = true
+				}
 			}
-			return r, found
-		}
-		if _, isStr := z.(*StrV); isStr {
-			for _, en := range m.Entries {
-				found = tb.Or(found, tb.Eq(kt, en.K.(*Term)))
+			if symbolic {
+				found := tb.F
+				if scalar {
+					r := z.(*Term)
+					for i, en := range m.Entries {
+						found = tb.Or(found, conds[i])
+						r = tb.Ite(conds[i], en.V.(*Term), r)
+					}
+					return r, found
+				}
+				emptyHit := tb.F
+				for i, en := range m.Entries {
+					found = tb.Or(found, conds[i])
+					if sv, ok := en.V.(*StrV); ok && !sv.Opaque && len(sv.B) == 0 {
+						emptyHit = tb.Or(emptyHit, conds[i])
+					}
+				}
+				r := e.opaqueStr()
+				r.Empty = tb.Or(tb.Not(found), emptyHit)
+				return r, found
 			}
-			return e.opaqueStr(), found
 		}
 	}
 	for _, en := range m.Entries {
